@@ -126,6 +126,11 @@ def _for_over(I, s, st, itv, ctx):
     if isinstance(itv, FuncV) and itv.kind == "builtin" and itv.data.get("name") == "$mapobj":
         f, xs = itv.data["margs"]
         raise OutOfReach("for over lazy map object")
+    if isinstance(itv, FuncV) and itv.kind == "builtin" and itv.data.get("name") == "$dictitems":
+        d = st.heap[itv.data["self"].oid]
+        vals = d.vals
+        return _for_symbolic(I, s, st, "seq", d.keys, ctx,
+                             elem_val=lambda x: TupV([Sym(x), Sym(z3.Select(vals, x))]))
     items = iter_items(I, st, itv)
     if items is not None:
         live, brk, esc = [st], [], []
@@ -222,7 +227,7 @@ def havoc_vars(I, st, names):
         st.env[n] = Sym(I.U.fresh(n))
 
 
-def _for_symbolic(I, s, st, skind, seq, ctx):
+def _for_symbolic(I, s, st, skind, seq, ctx, elem_val=None):
     """Inductive rule over a symbolic sequence (heap list: Seq split `xs = pre ++ [x] ++ post`;
     tuple/list value: arbitrary index `0 <= i < len`, `x = item(i)`)."""
     from .spec import Prefix
@@ -280,7 +285,14 @@ def _for_symbolic(I, s, st, skind, seq, ctx):
     heap_before = {k: dict(h.fields) for k, h in it.heap.items()}
     brk, esc = [], []
     if I.feasible(it):
-        for (z, oc) in I.assign(s.target, Sym(x), it, ctx):
+        if elem_val is not None:
+            ev_ = elem_val(x)
+            for sub in (ev_.items if isinstance(ev_, TupV) else [ev_]):
+                if isinstance(sub, Sym):
+                    I.U.well_typed(sub.t)
+        else:
+            ev_ = Sym(x)
+        for (z, oc) in I.assign(s.target, ev_, it, ctx):
             if oc is not None:
                 esc.append((z, oc))
                 continue
@@ -330,6 +342,97 @@ def exec_while(I, s, st, ctx):
     raise OutOfReach("while loops: not implemented yet")
 
 
+def _comprehension_symbolic(I, e, g, st, itv, ctx, kind):
+    """Comprehension over a symbolic iterable: the element / filter expressions are executed once
+    on an *arbitrary* element (they must not write the heap; a raise there is a raising path of
+    the comprehension); the result is a fresh container about whose contents nothing is assumed
+    (sound over-approximation — contracts that need more use a loop with an invariant)."""
+    U = I.U
+    if isinstance(itv, FuncV) and itv.kind == "builtin" and itv.data.get("name") == "$dictitems":
+        d = st.heap[itv.data["self"].oid]
+        seq, skind = d.keys, "seq"
+        vals = d.vals
+        mk = lambda x: TupV([Sym(x), Sym(z3.Select(vals, x))])
+    else:
+        ss = symbolic_seq(I, st, itv)
+        if ss is None:
+            raise OutOfReach("comprehension over %r" % (itv,))
+        skind, seq, cond = ss
+        if cond is not None and not I.valid(st, cond):
+            raise OutOfReach("comprehension over symbolic value of unknown type")
+        mk = lambda x: Sym(x)
+    probe = st.fork()
+    x = U.fresh("celem")
+    if skind == "seq":
+        probe.pc.append(z3.Contains(seq, z3.Unit(x)))
+    else:
+        i = U.fresh_int("cidx")
+        probe.pc += [i >= 0, i < vm.tlen(seq), x == vm.titem(seq, i)]
+    xv = mk(x)
+    for sub in (xv.items if isinstance(xv, TupV) else [xv]):
+        if isinstance(sub, Sym):
+            U.well_typed(sub.t)
+    heap_before = {k: dict(h.fields) for k, h in probe.heap.items()}
+    ghost_before = dict(probe.ghost)
+    raising = []
+    live = None
+    if I.feasible(probe):
+        res = I.assign(g.target, xv, probe, ctx)
+        live = []
+        for (z, oc) in res:
+            if oc is not None:
+                raising.append((z, oc[1]))
+            else:
+                live.append(z)
+        for cnd in g.ifs:
+            nxt = []
+            for z in live:
+                for (w, cv) in I.eval(cnd, z, ctx):
+                    if isinstance(cv, Raise):
+                        raising.append((w, cv))
+                    else:
+                        for (u, b) in I.branch(w, I.truth_in(w, cv)):
+                            if b:
+                                nxt.append(u)
+            live = nxt
+        exprs = [e.key, e.value] if kind == "dict" else [e.elt]
+        for z in live:
+            for (w, vv) in I.eval_list(exprs, z, ctx):
+                if isinstance(vv, Raise):
+                    raising.append((w, vv))
+                else:
+                    _check_no_heap_write(w, heap_before)
+                    for kf in w.ghost:
+                        if kf.startswith("F_") and w.ghost[kf] is not ghost_before.get(kf):
+                            raise OutOfReach("comprehension writes a field map")
+    out = [(w, rz) for (w, rz) in raising]
+    if kind in ("list", "gen"):
+        cseq = U.fresh_seq("comp")
+        r = I.alloc_list(st, cseq)
+        # filter comprehension `[x for x in xs if cond(x)]`: every element of the result satisfies
+        # cond (the disjunction of the passing paths of the probe, with the probe element replaced)
+        if isinstance(e.elt, ast.Name) and isinstance(g.target, ast.Name) and e.elt.id == g.target.id \
+                and not isinstance(xv, TupV) and g.ifs and live is not None:
+            base = len(st.pc) + (1 if skind == "seq" else 3)
+            alts = []
+            for z in live:
+                suf = z.pc[base:]
+                alts.append(z3.And(suf) if len(suf) > 1 else (suf[0] if suf else z3.BoolVal(True)))
+            if alts:
+                body = z3.Or(alts) if len(alts) > 1 else alts[0]
+                from .spec import fold as _fold
+                nm = "comp_filter_%d" % I.new_oid()
+                f = _fold(I, nm, lambda y, body=body, x=x: z3.substitute(body, (x, y)))
+                st.pc.append(f.sfn(cseq))
+        out.append((st, r))
+    elif kind == "dict":
+        r = I.alloc_dict(st, keys=U.fresh_seq("compkeys"), vals=z3.Const("compvals!%d" % I.new_oid(), z3.ArraySort(V, V)))
+        out.append((st, r))
+    else:
+        raise OutOfReach("set comprehension over symbolic iterable")
+    return out
+
+
 def eval_comprehension(I, e, st, ctx, kind):
     if len(e.generators) != 1:
         raise OutOfReach("comprehension with several generators")
@@ -350,13 +453,8 @@ def eval_comprehension(I, e, st, ctx, kind):
         else:
             items = iter_items(I, q, itv)
         if items is None:
-            h = I.lib.get("$comprehension_symbolic")
-            if h is not None:
-                r = h(I, e, q, itv, ctx, kind)
-                if r is not None:
-                    out += r
-                    continue
-            raise OutOfReach("comprehension over symbolic iterable")
+            out += _comprehension_symbolic(I, e, g, q, itv, ctx, kind)
+            continue
         res = [(q, [])]
         saved_names = {n.id for n in ast.walk(g.target) if isinstance(n, ast.Name)}
         for it in items:
